@@ -933,3 +933,85 @@ def c17(stream, scen=None):
 
 MONITORS.update({'C02': [c02], 'C03': [c03], 'C05': [c05], 'C08': [c08], 'C11': [c11], 'C13': [c13],
                  'C15': [c15], 'C16': [c16], 'C17': [c17]})
+
+
+# ------------------------------------------------------------------------------------------ C04
+NEG = float('-inf')
+
+
+def serial_ref(scen, nparts):
+    """Reference recurrence for a serial line: E[j][k] = time part k (1-based) enters station j.
+    Stations: 0 = source, 1..n-1 = handler/processor (cycle c) or buffer (delay, capacity K), n = sink."""
+    st = []
+    for l in scen:
+        if l[:2] == ['asset', 'dev']:
+            kv = dict(t.split('=', 1) for t in l[3:] if '=' in t)
+            st.append((l[2], kv))
+    n = len(st) - 1
+    c = [0] * (n + 1)
+    K = [1] * (n + 1)
+    isbuf = [False] * (n + 1)
+    for j, (kind, kv) in enumerate(st):
+        if kind == 'buffer':
+            isbuf[j] = True
+            c[j] = int(kv.get('delay', '0'))
+            cap = kv.get('cap', 'def')
+            K[j] = None if cap in ('def', 'inf') else int(cap)
+        else:
+            c[j] = int(kv.get('cyc', '0'))
+    budget = st[0][1].get('budget', 'def')
+    budget = None if budget in ('def', 'inf') else int(budget)
+    if budget is not None:
+        nparts = min(nparts, budget)
+    D = [[NEG] * (nparts + 2) for _ in range(n + 1)]   # D[j][k]: part k leaves station j (k>=1)
+    E = [[NEG] * (nparts + 2) for _ in range(n + 2)]
+
+    def free(j, k):
+        """earliest time station j can take part k"""
+        if j == n:
+            return NEG if k == 1 else E[n][k - 1] + c[n]
+        if K[j] is None:
+            return NEG
+        return NEG if k - K[j] < 1 else D[j][k - K[j]]
+
+    for k in range(1, nparts + 1):
+        g = c[0] if k == 1 else D[0][k - 1] + c[0]
+        D[0][k] = max(g, free(1, k))
+        for j in range(1, n + 1):
+            E[j][k] = D[j - 1][k]
+            if j == n:
+                break
+            if isbuf[j]:
+                D[j][k] = max(E[j][k] + c[j], D[j][k - 1] if k > 1 else NEG, free(j + 1, k))
+            else:
+                D[j][k] = max(E[j][k] + c[j], free(j + 1, k))
+    return E, n
+
+
+def c04(stream, scen):
+    """serial line: the time the k-th part enters each station equals the blocking-after-service
+    recurrence (exactly)."""
+    wit = []
+    fs = frames(stream)
+    seen = {}
+    horizon = 0
+    for f in fs:
+        if f.trigger[0] == 'abort':
+            return wit
+        if f.now is not None:
+            horizon = max(horizon, f.now)
+        for rec in f.recs:
+            t = rec.split()
+            if t[0] == 'received_part':
+                seen.setdefault(int(t[1]), []).append(int(t[2]))
+    nparts = max([len(v) for v in seen.values()] + [0]) + 3
+    E, n = serial_ref(scen, nparts)
+    for j in range(1, n + 1):
+        got = seen.get(j, [])
+        exp = [int(x) for x in E[j][1:] if x != NEG and x <= horizon]
+        if got != exp[:len(got)] or (len(exp) > len(got) and any(x < horizon for x in exp[len(got):])):
+            wit.append(f'station {j}: parts entered at {got[:8]}..., the reference recurrence gives {exp[:8]}... (horizon {horizon})')
+    return wit
+
+
+MONITORS['C04'] = [c04]
